@@ -125,7 +125,7 @@ func (n *LNode) Start() StepObs {
 }
 
 // StepWatchdog: how long one real local step may take before it is declared wedged (a step takes micro- to milliseconds).
-var StepWatchdog = 20 * time.Second
+var StepWatchdog = 60 * time.Second
 
 type StepObs struct {
 	Outs    []OutRec
